@@ -61,23 +61,28 @@ Definition raises (r : res) : bool := match r with RErr _ => true | RFound Raise
 Definition predicts (o : op) : bool :=
   match o with OccAt _ _ | OccsAt _ | OccSet _ | GetObstacles _ _ | FindPos | FindShape | LightAt _ _ => true | _ => false end.
 
-Fixpoint run_group (s : scen) (ops : list op) : scen * bool :=
+(* [c]: the code version, read off the source on every run (harness: syntax tree of _create_occupancy_set and of
+   PlanningProblemMessage.create_message); the theorems of Props/C18.v are about [repaired] *)
+Fixpoint run_group (c : code) (s : scen) (ops : list op) : scen * bool :=
   match ops with
   | [] => (s, false)
-  | o :: r => let (s1, res1) := step repaired s o in
-              let (s2, b) := run_group s1 r in (s2, (predicts o && raises res1) || b)
+  | o :: r => let (s1, res1) := step c s o in
+              let (s2, b) := run_group c s1 r in (s2, (predicts o && raises res1) || b)
   end.
 
 Record stepobs := mkStep { so_ops : list op; so_raised : bool; so_after : scen }.
 Definition case := (scen * list stepobs)%type.
 
-Fixpoint check_from (s0 s : scen) (l : list stepobs) : bool :=
+Fixpoint check_from (c : code) (s0 s : scen) (l : list stepobs) : bool :=
   match l with
   | [] => true
   | st :: r =>
-      let (s1, raised) := run_group s (so_ops st ++ [XmlWrite; PbWrite]) in
+      let (s1, raised) := run_group c s (so_ops st ++ [XmlWrite; PbWrite]) in
       scen_eqb s1 (so_after st) && Bool.eqb raised (so_raised st)
       && scen_eqb (observe (so_after st)) (observe s0)
-      && check_from s0 s1 r
+      && check_from c s0 s1 r
   end.
-Definition check (c : case) : bool := check_from (fst c) (fst c) (snd c).
+Definition check_c (c : code) (x : case) : bool := check_from c (fst x) (fst x) (snd x).
+Definition check : case -> bool := check_c repaired.
+Definition code_eqb (a b : code) : bool :=
+  Bool.eqb (occ_on_copy a) (occ_on_copy b) && Bool.eqb (pb_checks_key a) (pb_checks_key b).
